@@ -66,8 +66,14 @@ func Harness_C08_lookup() {
 		// every open authenticated connection heartbeats first
 		now += int64(verif_Byte()) * int64(time.Second)
 		verif_ClockSet(now)
-		for _, c := range conns {
+		for k, c := range conns {
 			if c.open && c.authed {
+				// the client's first connection may have gone quiet (half-dead link) once a newer one
+				// exists - and may still deliver a late heartbeat at any later point
+				if k == 0 && latest > 0 && !verif_Bool() {
+					verif_Cover("C08.old_connection_quiet")
+					continue
+				}
 				verif_Assert("C08.heartbeat.ok", vsHeartbeat(nodes[c.node], c.id) == nil)
 			}
 		}
